@@ -55,6 +55,7 @@ def C01(ctx):
     T.c05_t2(ctx, f)
     T.c06_t1(ctx, f)
     T.c07_t1(ctx, f)
+    Gp.c07_r4(ctx, f)
     d_app = G.c06_r3(ctx, f)
     d_enc = G.c06_r2(ctx, f)
     sctx6 = soft_if(ctx, d_app and d_enc, "C06.R2/R3")
@@ -84,7 +85,7 @@ def C01(ctx):
     x("c01_r4", soft_if(ctx, d_place, "C01.R5"), f)
     return dict(
         level="other",
-        explanation='Round-trip equality over all payloads is not claimed as a whole. Decided exactly, for every payload: every table a reference decoder depends on (block layouts, codeword counts, generators, GF tables, format/version words, count widths, capacity thresholds), every hand-off between pipeline stages, the interleaved codeword sequence for all 160 (version, level) cells (partial evaluation with symbolic data codewords), the placement of codeword bit i on the i-th data module of the ISO zig-zag order (partial evaluation with symbolic bits), the blank symbol for 40 versions, the format writer and the eight mask sweeps at every coordinate. Not decided: the bit packing inside push_bits/push_u8 and the iteration of the GF division step (only its constants and one-step algebra).',
+        explanation='Round-trip equality over all payloads is not claimed as a whole. Decided exactly, for every payload: every table a reference decoder depends on (block layouts, codeword counts, generators, GF tables, format/version words, count widths, capacity thresholds), every hand-off between pipeline stages, the interleaved codeword sequence for all 160 (version, level) cells (partial evaluation with symbolic data codewords), the placement of codeword bit i on the i-th data module of the ISO zig-zag order (partial evaluation with symbolic bits), the blank symbol for 40 versions, the format writer and the eight mask sweeps at every coordinate. The EC codewords of every block for every block content (C07.R4, GF(2^8)-linear forms over free block bytes). The bit stream of the encoders on the stated (mode, version, level, length) cells with a symbolic payload (C06.R2/R3). Not decided: the encoders at payload lengths between the stated cells.',
     )
 
 
@@ -93,12 +94,14 @@ def C02(ctx):
     lay, dcw, deg, tot = tables_core(ctx, f)
     T.c02_r1(ctx, f, tot)
     T.c07_r1(ctx, f, lay, deg)
+    T.c07_t1(ctx, f)
+    Gp.c07_r4(ctx, f)
     d_il = G.c02_r4(ctx, f)
     E.c02_r2(soft_if(ctx, d_il, "C02.R4"), f)
     x("c02_r3", soft_if(ctx, d_il, "C02.R4"), f)
     return dict(
         level="other",
-        explanation="Exhaustive table obligations (every cell of the block-layout, data-codeword, total-codeword, remainder-bit and generator tables against values derived from ISO Table 9), buffer sizes from signatures, and the complete output of polynomials::structure for all 160 cells by partial evaluation with symbolic data codewords: data blocks interleaved in ISO order, then each block's own EC codewords (remainder cells of its own division) interleaved, zero after. Not decided: the GF long-division loop (C07), the corruption corollary.",
+        explanation="Exhaustive table obligations (every cell of the block-layout, data-codeword, total-codeword, remainder-bit and generator tables against values derived from ISO Table 9), buffer sizes from signatures, and the complete output of polynomials::structure for all 160 cells by partial evaluation with symbolic data codewords: data blocks interleaved in ISO order, then each block's own EC codewords (remainder cells of its own division) interleaved, zero after. All-zero syndromes: each block's EC codewords are the remainder of block(x).x^ec by the generator for EVERY block content (C07.R4: the division evaluated with the block bytes as free symbols over GF(2^8)-linear forms, all 13 degrees and every block length in use; field tables and generators exact by C07.T1/T2). Not decided: the corruption corollary (a textbook consequence of zero syndromes and the generator degree, not mechanised).",
     )
 
 
@@ -180,16 +183,17 @@ def C06(ctx):
 def C07(ctx):
     f = ctx.facts("default")
     lay, dcw, deg, tot = tables_core(ctx, f)
+    d_all = Gp.c07_r4(ctx, f)
     d_div = Gp.c07_r3(ctx, f)
     T.c07_t1(ctx, f)
     T.c07_r1(soft_if(ctx, d_div, "C07.R3"), f, lay, deg)
-    x("c07_r2", soft_if(ctx, d_div, "C07.R3"), f)
+    x("c07_r2", soft_if(ctx, d_div or d_all, "C07.R3/R4"), f)
     d_il = G.c02_r4(ctx, f)
     E.c02_r2(soft_if(ctx, d_il, "C02.R4"), f)
     x("c02_r3", soft_if(ctx, d_il, "C02.R4"), f)
     return dict(
         level="other",
-        explanation="By partial evaluation (C07.R3): polynomials::division, given the crate's own generator for each of the 13 degrees in use and the shortest and longest block length of that degree (all lengths in the thorough tier), returns the GF(2^8)/0x11D remainder of block(x).x^degree by g(x) in the cells the interleaver reads, for every single-nonzero-byte block at the last position (all 255 values: one step of the loop), spread values at the first and a middle position (the step iterated over the whole block), blocks with leading and interior zeros, and fixed dense blocks. Also: 510 reachable table cells, 13 generator polynomials recomputed from the definition, the 160-cell degree map, buffer obligations of the division, the set of coefficient values for which the step is skipped (exactly {0}), the one-step algebra rem[i+j] ^= exp[(g[j] + log rem[i]) mod 255] when the loop is written in a readable shape, and the exact position of every block's EC codewords in the final sequence (C02.R4). Not decided: additivity of the implemented map over all 256^k contents (it follows from the uniform xor step, which C07.R2 reads when it can).",
+        explanation="For every block content (C07.R4): polynomials::division evaluated with the block bytes as free symbols, every computed byte a GF(2^8)-linear form over them, the zero-coefficient branch taken both ways and merged, the log/antilog tables recognised by content - for all 13 generator degrees and every block length in use the EC codewords read by the interleaver are exactly the linear forms of the remainder of block(x).x^degree modulo g(x). On concrete contents as a cross-check (C07.R3): polynomials::division, given the crate's own generator for each of the 13 degrees in use and the shortest and longest block length of that degree (all lengths in the thorough tier), returns the GF(2^8)/0x11D remainder of block(x).x^degree by g(x) in the cells the interleaver reads, for every single-nonzero-byte block at the last position (all 255 values: one step of the loop), spread values at the first and a middle position (the step iterated over the whole block), blocks with leading and interior zeros, and fixed dense blocks. Also: 510 reachable table cells, 13 generator polynomials recomputed from the definition, the 160-cell degree map, buffer obligations of the division, the set of coefficient values for which the step is skipped (exactly {0}), the one-step algebra rem[i+j] ^= exp[(g[j] + log rem[i]) mod 255] when the loop is written in a readable shape, and the exact position of every block's EC codewords in the final sequence (C02.R4). When the division is rewritten outside what the linear-form domain can follow (e.g. a conditional subtraction instead of % 255) C07.R4 abstains and the verdict rests on C07.R3's basis and samples plus the step algebra.",
     )
 
 
